@@ -44,7 +44,8 @@ def _case(draw):
     case = draw(gen_races.race_case(avoid_named_wrap=True, max_elements=3))
     kind = draw(
         st.sampled_from(
-            ["runner-abort", "conn-error", "param-source", "runner-raises", "store-once", "store-persistent", "prep-task", "kill-worker", "cancel", "none"]
+            ["runner-abort", "conn-error", "param-source", "runner-raises", "store-once", "store-persistent", "prep-task", "kill-worker", "cancel", "none",
+             "cancel-during-completion", "store-fault-then-completes"]
         )
     )
     leaves = [leaf for _, leaf in sim_race.leaves(case["schedule"])]
@@ -102,6 +103,26 @@ def _case(draw):
                 }
         else:
             fault = {"kind": "cancel", "at": draw(st.sampled_from(TIMES))}
+    elif kind == "cancel-during-completion":
+        # template: Ctrl+C while BenchmarkComplete is still in flight; race control's exit request is slow, so the benchmark actor
+        # handles the completion message after it has been told about the cancellation
+        fault = {"kind": "cancel", "on_send": ["BenchmarkComplete", 1]}
+        case["delays"] = draw(st.lists(st.integers(0, 5), min_size=1, max_size=6))
+        case["delay_overrides"] = {"BenchmarkComplete": 6, "BenchmarkCancelled": draw(st.sampled_from([0, 2])), "ActorExitRequest": 7}
+        kind = "cancel"
+    elif kind == "store-fault-then-completes":
+        # template: the driver's store fails once in the periodic 30 s tick of a 35 s task; the failure is reported, but race
+        # control's exit request is slow and the race still completes before the actors are told to exit
+        long_leaf = {"name": "e0", "clients": draw(st.integers(1, 3)), "stride": 1, "mode": "time", "warmup_time_period": None, "time_period": 35,
+                     "requests": [{"pre": 0, "wire": [[0, draw(st.sampled_from([1.0, 2.5]))]], "post": 0, "outcome": "ok", "shape": "dict", "weight": 1, "unit": "ops"}]}
+        case["schedule"] = [long_leaf]
+        case["test_mode"] = True
+        case["prep_tasks"] = []
+        case["preempt"] = None
+        case["delays"] = draw(st.lists(st.integers(0, 4), min_size=1, max_size=6))
+        case["delay_overrides"] = {"ActorExitRequest": 7}
+        fault = {"kind": "store", "n": draw(st.sampled_from([1, 2, 3])), "persistent": False}
+        kind = "store-once"
     case["fault"] = fault
     case["fault_class"] = kind
     return case
